@@ -1013,7 +1013,29 @@ func (c *fnCtx) classifyErrCall(call *ast.CallExpr, _ int) cls {
 					a.hand("H13 encoding/json.Unmarshal into a number: UnmarshalTypeError echoes the number literal", call.Pos())
 					return quoting(arg(0), full)
 				}
-				if _, isIface := el.Underlying().(*types.Interface); isIface || a.hasMethod(tt, "UnmarshalJSON") {
+				if ifc, isIface := el.Underlying().(*types.Interface); isIface || a.hasMethod(tt, "UnmarshalJSON") {
+					if isIface {
+						// the dynamic type may be a library type WITHOUT UnmarshalJSON (Track1/2/3): encoding/json
+						// then decodes the struct by reflection, and errors of nested text / JSON unmarshalers of the
+						// standard library (time.Time: `parsing time "<the whole string>"…`) quote the value
+						for _, p := range a.l.pkgs {
+							sc := p.pkg.Scope()
+							for _, nm := range sc.Names() {
+								tn, ok := sc.Lookup(nm).(*types.TypeName)
+								if !ok || tn.IsAlias() {
+									continue
+								}
+								if _, isStruct := tn.Type().Underlying().(*types.Struct); !isStruct {
+									continue
+								}
+								pt := types.NewPointer(tn.Type())
+								if types.Implements(pt, ifc) && !a.hasMethod(pt, "UnmarshalJSON") {
+									a.hand("H23 encoding/json.Unmarshal into an interface that "+tn.Name()+" implements without an UnmarshalJSON method: the reflection decoder passes on errors of nested standard-library unmarshalers (time.Time quotes the whole string)", call.Pos())
+									return cls{"errValue", 0, "H23:" + full + " (reflection decoding of " + tn.Name() + ")"}
+								}
+							}
+						}
+					}
 					a.hand("H14 encoding/json.Unmarshal into a json.Unmarshaler returns that method's error unchanged; syntax errors show one character", call.Pos())
 					return cls{"wrap+char", 0, "iface:json.Unmarshaler.UnmarshalJSON"}
 				}
